@@ -140,10 +140,20 @@ impl<TR: ToTokens> FnDelegationCodegen<'_, TR> {
         let attrs = &trait_fn.attrs;
         let fn_generic_arguments = &trait_fn.fn_generic_arguments;
 
+        let call = quote_spanned! { span=>
+            #opt_self_scoping #fn_ident #fn_generic_arguments(#opt_self_comma #(#arguments),*)
+        };
+        // the body of an `unsafe fn` is not an unsafe block (lint `unsafe_op_in_unsafe_fn`)
+        let call = if trait_fn_sig.unsafety.is_some() {
+            quote_spanned! { span=> unsafe { #call } }
+        } else {
+            call
+        };
+
         quote_spanned! { span=>
             #(#attrs)*
             #trait_fn_sig {
-                #opt_self_scoping #fn_ident #fn_generic_arguments(#opt_self_comma #(#arguments),*) #opt_dot_await
+                #call #opt_dot_await
             }
         }
     }
